@@ -151,32 +151,67 @@ def healpix(w, seed, spec):
     return fails
 
 
+def _coverage_case(L, Sampling, ps, x, y, fails, what):
+    """coverage against counting: total = number of samples, every pixel carries at least its own hits; exactly its
+    hits except the last pixel, which also receives the out-of-map samples (index -1 wraps in .at[].add)"""
+    l = L(pixel_shape=ps)
+    ns = len(x)
+    try:
+        cov = np.asarray(l.get_coverage(Sampling(jnp.asarray(x), jnp.asarray(y), jnp.zeros(ns))))
+    except Exception as e:      # noqa: BLE001
+        fails.append(f'pixel_shape {ps} ({what}): get_coverage raises {type(e).__name__}: {str(e)[:80]}')
+        return
+    shape = tuple(reversed(ps))
+    ref = np.zeros(shape, np.int64)
+    outside = 0
+    for a, b in zip(np.rint(x).astype(int), np.rint(y).astype(int)):
+        inside = 0 <= a < ps[0] and (len(ps) == 1 or 0 <= b < ps[1])
+        if not inside:
+            outside += 1
+        elif len(ps) > 1:
+            ref[b, a] += 1
+        else:
+            ref[a] += 1
+    if cov.shape != shape:
+        fails.append(f'pixel_shape {ps} ({what}): coverage shape {cov.shape} != {shape}')
+        return
+    if int(cov.sum()) != ns:
+        fails.append(f'pixel_shape {ps} ({what}): coverage sums to {int(cov.sum())} but there are {ns} samples '
+                     f'({outside} out of the map); coverage {cov.tolist()}, in-map hits {ref.tolist()}')
+    if (cov < ref).any():
+        fails.append(f'pixel_shape {ps} ({what}): pixels {np.argwhere(cov < ref).tolist()} have fewer counts than hits: '
+                     f'coverage {cov.tolist()}, in-map hits {ref.tolist()}')
+    exact = ref.copy()
+    exact.flat[-1] += outside
+    if not (cov == exact).all() and int(cov.sum()) == ns and not (cov < ref).any():
+        fails.append(f'pixel_shape {ps} ({what}): coverage {cov.tolist()} != histogram {exact.tolist()} (out-of-map samples '
+                     f'counted on the last pixel)')
+
+
 def coverage(w, seed, spec):
     from furax.landscapes import HealpixLandscape
     from furax.samplings import Sampling
     L = _cls()
     fails = []
     rng = np.random.default_rng(seed)
-    for ps in [p for p in _pshapes(w, seed) if len(p) <= 2]:
-        l = L(pixel_shape=ps)
+    for ps in [p for p in _pshapes(w, seed) if len(p) <= 2][:6]:
+        n0, n1 = ps[0], (ps[1] if len(ps) > 1 else 1)
+        # (a) random in-map samples
         ns = int(rng.integers(0, 40)) if ps != (1,) else 5
-        x = rng.integers(0, ps[0], ns).astype(np.float32)
-        y = rng.integers(0, ps[1], ns).astype(np.float32) if len(ps) > 1 else np.zeros(ns, np.float32)
-        try:
-            cov = np.asarray(l.get_coverage(Sampling(jnp.asarray(x), jnp.asarray(y), jnp.zeros(ns))))
-        except Exception as e:      # noqa: BLE001
-            fails.append(f'pixel_shape {ps}: get_coverage raises {type(e).__name__}: {str(e)[:80]}')
-            continue
-        ref = np.zeros(tuple(reversed(ps)), np.int64)
-        for a, b in zip(x.astype(int), y.astype(int)):
-            if len(ps) > 1:
-                ref[b, a] += 1
-            else:
-                ref[a] += 1
-        if cov.shape != ref.shape or not (cov == ref).all():
-            fails.append(f'pixel_shape {ps}: coverage {cov.tolist()} != histogram {ref.tolist()}')
-        elif int(cov.sum()) != ns:
-            fails.append(f'pixel_shape {ps}: coverage sums to {int(cov.sum())}, {ns} samples')
+        x = rng.integers(0, n0, ns).astype(np.float32)
+        y = rng.integers(0, n1, ns).astype(np.float32)
+        _coverage_case(L, Sampling, ps, x, y, fails, 'in-map samples')
+        # (b) every pixel hit (some twice) and samples that fall outside the map
+        gx, gy = np.meshgrid(np.arange(n0), np.arange(n1))
+        x = np.concatenate([gx.ravel(), gx.ravel()[:2], [n0 + 3.0, -2.0]]).astype(np.float32)
+        y = np.concatenate([gy.ravel(), gy.ravel()[:2], [0.0, 0.0]]).astype(np.float32)
+        _coverage_case(L, Sampling, ps, x, y, fails, 'every pixel hit + out-of-map samples')
+        # (c) partial coverage with out-of-map samples
+        x = np.asarray([0.0, n0 + 1.0, 0.0], np.float32)
+        y = np.asarray([0.0, 0.0, float(n1 - 1)], np.float32)
+        _coverage_case(L, Sampling, ps, x, y, fails, 'partial coverage + out-of-map sample')
+        if len(fails) > 6:
+            return fails[:8]
     h = HealpixLandscape(2)
     theta = rng.uniform(0.1, 3.0, 50)
     phi = rng.uniform(0, 6.2, 50)
